@@ -81,7 +81,7 @@ PROPS = {
                    'interior / last rows, false public inputs (also pairs of errors that would cancel under a shared weight) and altered proof elements never accepted; '
                    'a harness-side cheating prover that ignores the constraints (quotients fitted to a guessed zeta with the commitment withheld / not absorbed / absorbed '
                    'after the guess; all-zero quotients with their openings withheld) is never accepted (found F9); the STARK transcript battery (c04_stark_transcript, which also requires the stand-alone proof to verify under the transcript that absorbs the trace cap and not under the one without it) and the malformed-proof battery (c18_stark_malformed) are part of this check.',
-        remainder=['starky verifier / prover / vanishing polynomial (bounded harness only)', 'batch_multiplicative_inverse (assumed contract)', 'STARK soundness argument'],
+        remainder=['starky verify_stark_proof_with_challenges, the transcript function get_challenges, prover, vanishing polynomial (bounded harness only)', 'batch_multiplicative_inverse (assumed contract)', 'STARK soundness argument'],
     ),
     'C15': dict(
         title='Transforms and polynomial algebra agree with their definitions',
@@ -284,12 +284,12 @@ PROPS = {
                    'to the circuit\'s own verifier-data public inputs (digest and cap) and lays down exactly one verification: the cyclic proof against the circuit\'s OWN verifier data when the condition holds, the other / dummy pair otherwise. The in-circuit parts themselves (select_*, cyclic '
                    'connection of verifier data, the dummy circuit itself) are covered by a bounded stand-in only.',
         level_note='Trusted: Verus+Z3; derived PartialEq on MerkleCap/HashOut is element-wise (T11); core::array::from_fn unrolled for N = 4 (R11e); slice range '
-                   'indexing and HashOut::from_partial contracts (T4). conditionally_verify_proof, select_*, conditionally_verify_cyclic_proof, '
+                   'indexing and HashOut::from_partial contracts (T4); in unit dummy_proof the builder is a log of generators / verifications / connections and its methods are uninterpreted (T10h), so what is proved there is WHICH targets are selected, verified and connected, not that the multiplexers and the in-circuit verifier compute what their names say. select_*, verify_proof, '
                    'dummy_circuit/dummy_proof/cyclic_base_proof: CircuitBuilder code, bounded harness only (2 inner circuit shapes incl. lookups, condition as a witness bit and as a build-time '
                    'constant, both values, 8-11 validity scenarios with the native verifier as oracle; cyclic base proofs of 4 shapes (sparse and dense caller maps) verified against their dummy circuit; conditionally_verify_proof_or_dummy with valid / invalid supplied proofs under both conditions; thorough tier: a 3-step '
                    'cyclic chain, 4 single-element alterations of the embedded verifier data, and a two-slot (tree) cyclic circuit with foreign verifier data in either slot).',
-        remainder=['select_proof_with_pis / select_verifier_data / conditionally_verify_proof (bounded harness only)',
-                   'conditionally_verify_cyclic_proof, add_verifier_data_public_inputs (bounded harness only, thorough tier)', 'dummy_circuit / dummy_proof (bounded harness only)'],
+        remainder=['select_proof_with_pis / select_verifier_data / verify_proof (the in-circuit multiplexers and verifier themselves: bounded harness only)',
+                   'add_verifier_data_public_inputs, in-circuit VerifierCircuitTarget::from_slice, connect_hashes / connect_merkle_caps (bounded harness only)', 'dummy_circuit / dummy_proof / cyclic_base_proof (bounded harness only)'],
     ),
 }
 
